@@ -259,6 +259,7 @@ func (m *Machine) RunInit(pkg *ssa.Package) {
 		return
 	}
 	m.inited[pkg] = true
+	pkg.Build() // bodies of dependency packages are built on demand
 	if f := pkg.Func("init"); f != nil && f.Blocks != nil {
 		m.CallFunction(f, nil, nil)
 	}
